@@ -179,16 +179,16 @@ def phase_name(p):
 
 
 # ------------------------------------------------------------------------------------------------ ThreadSanitizer pass
-def tsan_run(bins, mode, reps, tmp):
+def tsan_run(bins, mode, reps, tmp, limit=300):
     env = dict(os.environ)
     env["TSAN_OPTIONS"] = "exitcode=66 halt_on_error=0 report_signal_unsafe=0 history_size=4"
     cmd = [bins["tsan"], mode, str(reps)]
     try:
-        r = subprocess.run(cmd, stdout=subprocess.PIPE, stderr=subprocess.PIPE, text=True, env=env, timeout=900)
+        r = subprocess.run(cmd, stdout=subprocess.PIPE, stderr=subprocess.PIPE, text=True, env=env, timeout=limit)
     except subprocess.TimeoutExpired:
         return dict(mode=mode, runs=0, reports=0, summaries=[], wrong="", timeout=True, stderr="")
     if "unexpected memory mapping" in r.stderr:  # ASLR entropy vs this libtsan: retry with randomisation off
-        r = subprocess.run(["setarch", "-R"] + cmd, stdout=subprocess.PIPE, stderr=subprocess.PIPE, text=True, env=env, timeout=900)
+        r = subprocess.run(["setarch", "-R"] + cmd, stdout=subprocess.PIPE, stderr=subprocess.PIPE, text=True, env=env, timeout=limit)
     m = re.search(r"RUNS (\d+)", r.stdout)
     summ = sorted(set(re.sub(r"0x[0-9a-f]+", "", s).strip() for s in re.findall(r"SUMMARY: ThreadSanitizer: (.*)", r.stderr)))
     wrong = "".join(l for l in r.stdout.splitlines(True) if l.startswith("WRONGCOUNT"))
@@ -203,7 +203,7 @@ def tsan_run(bins, mode, reps, tmp):
 def tsan_key(t):
     what = "WRONGCOUNT" if t["wrong"] else "data race"
     where = ""
-    if t["summaries"]:
+    if t["summaries"] and not t["wrong"]:
         fn = re.findall(r" in (.*)$", t["summaries"][0])
         where = " in " + re.sub(r"\(.*", "", fn[0]).strip() if fn else ""
     return "tsan mode=%s %s%s" % (t["mode"], what, where)
@@ -239,8 +239,9 @@ def _run(ctx, bins, tmp):
 
     # ---- ThreadSanitizer pass, free-running, in the background of the exploration
     tsan_pool = cf.ThreadPoolExecutor(3)
-    tsan_reps = 6 if ctx.quick else 30
-    tsan_fut = [tsan_pool.submit(tsan_run, bins, m, tsan_reps, tmp) for m in MODES]
+    tsan_reps = 4 if ctx.quick else 30
+    tsan_limit = 100 if ctx.quick else 400
+    tsan_fut = [tsan_pool.submit(tsan_run, bins, m, tsan_reps, tmp, tsan_limit) for m in MODES]
 
     # ---- exploration, bound by bound
     per = {}          # cfg name -> bound -> merged statistics
@@ -424,19 +425,33 @@ def _run(ctx, bins, tmp):
 
     common.log("C49: replays done at %.0fs" % (time.time() - ctx.t0))
     # ---- ThreadSanitizer results
+    unreproduced = []
     tsan = [f.result() for f in tsan_fut]
     tsan_pool.shutdown()
     for t in tsan:
         if t["timeout"]:
-            assumptions.append("ThreadSanitizer pass for mode %s did not finish in time" % t["mode"])
+            assumptions.append("ThreadSanitizer pass for mode %s did not finish within %d s (overloaded machine, or the free-running bodies hang)" % (t["mode"], tsan_limit))
             continue
         if t["reports"] or t["wrong"]:
-            again = [tsan_run(bins, t["mode"], tsan_reps, tmp) for _ in range(2)]
-            if not all((a["reports"] > 0) == (t["reports"] > 0) and bool(a["wrong"]) == bool(t["wrong"]) for a in again):
-                harness_error("ThreadSanitizer report for mode %s does not reproduce: %s" % (t["mode"], t["summaries"][:3]))
-            what = (t["wrong"] or "%d report(s): %s" % (t["reports"], "; ".join(t["summaries"][:4])))[:900]
+            # free-running: whether the race window is hit varies from run to run; confirm = seen again in 2 of up to 4 longer runs
+            seen = []
+            for _ in range(4):
+                a = tsan_run(bins, t["mode"], 2 * tsan_reps, tmp, tsan_limit)
+                if a["reports"] or a["wrong"]:
+                    seen.append(a)
+                if len(seen) == 2:
+                    break
+            if len(seen) < 2:
+                unreproduced.append("ThreadSanitizer report for mode %s was not seen again: %s %s" % (t["mode"], t["summaries"][:3], t["wrong"]))
+                continue
+            summ = sorted(set(t["summaries"]) & set(seen[0]["summaries"]) & set(seen[1]["summaries"])) or t["summaries"]
+            t["summaries"] = summ
+            what = (t["wrong"] or "%d report(s): %s" % (t["reports"], "; ".join(summ[:4])))[:900]
             violations.append(common.Violation(tsan_key(t), "free-running ThreadSanitizer pass: " + what,
-                                               dict(kind="tsan", mode=t["mode"], reps=tsan_reps)))
+                                               dict(kind="tsan", mode=t["mode"], reps=2 * tsan_reps)))
+    if unreproduced and not violations:
+        harness_error("; ".join(unreproduced))
+    assumptions += unreproduced
 
     # ---- evidence
     top = {n: max(b) for n, b in per.items()}
